@@ -66,7 +66,9 @@ def sig(x):
         return ["lang", fa.canonical_min(fa.determinise(s, alphabet=sorted(s["S"])))]
     if isinstance(x, Regexp):
         t = BR.snap(x)
-        return ["lang", fa.canonical_min(RX.to_dfa(t, sorted(RX.symbols(t)) or ["a"])), sorted(RX.symbols(t))] if RX.size(t) <= 150 else ["regexp_large"]
+        # the language only (the shape and size of an extracted expression legitimately depend on the elimination order); alphabet = argument-independent superset
+        S = ["0", "1", "a", "b", "c"]
+        return ["lang", fa.canonical_min(RX.to_dfa(t, S) if RX.size(t) <= 150 else RX.to_dfa2(t, S))]
     if isinstance(x, PDA):
         return ["words", sorted(RP.lang_upto(BP.snap_pda(x), 3))]
     if isinstance(x, CFG):
